@@ -12,12 +12,13 @@ done
 for i in $(seq 1 $N); do
   mine=()
   for k in "${!seeds[@]}"; do if [ $((k % N + 1)) -eq $i ]; then mine+=("${seeds[$k]}"); fi; done
+  printf '%s\n' "${mine[@]}" > /tmp/ev/$i/mine
   ( cd /tmp/ev/$i/verif && EVAL_REPO=/tmp/ev/$i/repo /venv/bin/python tools/eval_seeds.py "${mine[@]}" > /tmp/ev/$i/log 2>&1 ) &
 done
 wait
 for i in $(seq 1 $N); do
   cat /tmp/ev/$i/log
-  for d in /tmp/ev/$i/verif/seeded/*/; do id=$(basename $d); cp $d/meta.json /verif/seeded/$id/meta.json; done
+  while read id; do [ -n "$id" ] && cp /tmp/ev/$i/verif/${EVAL_DIR:-seeded}/$id/meta.json /verif/${EVAL_DIR:-seeded}/$id/meta.json; done < /tmp/ev/$i/mine
   git -C /repo worktree remove --force /tmp/ev/$i/repo
 done
 rm -rf /tmp/ev
